@@ -577,6 +577,10 @@ fn indent(amount: usize) -> String {
 
 fn newline_if_body(core: &Core, ind: usize) -> String {
     match core {
+        // A body that holds nothing (e.g. only comments in the source) still needs a statement.
+        Core::Block { statements } if statements.is_empty() => {
+            format!("\n{}pass", indent(ind + 1))
+        }
         Core::Block { .. } => format!("\n{}", to_py(core, ind + 1)),
         _ => format!("\n{}{}", indent(ind + 1), to_py(core, ind + 1)),
     }
